@@ -304,9 +304,23 @@ func bridgeReplayOne(fx *bridgeFixture, dir string, b bridgeBehaviour, st *bridg
 	zts := fx.Tokens[cfg]
 	users := map[string]*wallet.KeyPair{"u1": g.User1, "u2": g.User2, "adm": g.User5}
 	label := func() string { js, _ := json.Marshal(b.Steps); return tail(string(js), 1500) }
+	// two outcomes are the code's as found, not demanded by the property (see Bridge.tla): a behaviour ends at the first of them,
+	// and there the other admissible course - the call is refused and leaves everything as it was - is accepted as well
+	asFound := func(r string) bool { return r == "kept-unburned" || r == "consumed-unpaid" }
+	for k, s := range b.Steps {
+		if asFound(s.R) {
+			b.Steps = b.Steps[:k+1]
+			break
+		}
+	}
+	var held [][2]string
+	holdFindings := false
 	find := func(key, what string) {
-		if len(st.Findings) < 12 {
-			st.Findings = append(st.Findings, [2]string{key, what + " (pair kind " + cfg + "; behaviour " + label() + ")"})
+		f := [2]string{key, what + " (pair kind " + cfg + "; behaviour " + label() + ")"}
+		if holdFindings {
+			held = append(held, f)
+		} else if len(st.Findings) < 12 {
+			st.Findings = append(st.Findings, f)
 		}
 	}
 	// feasibility: at most bridgeDense calls per unit
@@ -400,6 +414,7 @@ func bridgeReplayOne(fx *bridgeFixture, dir string, b bridgeBehaviour, st *bridg
 	}
 	unit := 0
 	lastCall := -1
+	var altWant map[string]*big.Int
 	for si, s := range b.Steps {
 		st.Steps++
 		if s.A == "Tick" {
@@ -480,6 +495,9 @@ func bridgeReplayOne(fx *bridgeFixture, dir string, b bridgeBehaviour, st *bridg
 		}
 		calls = append(calls, sent{s, blk})
 		lastCall = si
+		if asFound(s.R) {
+			altWant = map[string]*big.Int{"u1": new(big.Int).Set(want["u1"]), "u2": new(big.Int).Set(want["u2"])}
+		}
 		switch {
 		case s.A == "Wrap" && (s.R == "ok" || s.R == "kept-unburned"):
 			want[s.U] = new(big.Int).Sub(want[s.U], amt)
@@ -495,12 +513,45 @@ func bridgeReplayOne(fx *bridgeFixture, dir string, b bridgeBehaviour, st *bridg
 		find("producer-stops", err.Error())
 		return nil
 	}
+	lastAsFound := lastCall >= 0 && asFound(b.Steps[lastCall].R)
+	holdFindings = lastAsFound
 	if lastCall >= 0 {
 		compare(lastCall)
 	}
+	holdFindings = false
+	otherCourse := false
+	if lastAsFound && len(held) > 0 {
+		// not the outcome as found: is it the other admissible one (refused, everything as before the call)?
+		strict := held
+		held = nil
+		saveSt, saveWant := b.Steps[lastCall].St, want
+		prev := bridgeState{Req: make([]bridgeReq, len(saveSt.Req))}
+		for i := range prev.Req {
+			prev.Req[i] = bridgeReq{St: "none", To: "-"}
+		}
+		if lastCall > 0 {
+			prev = b.Steps[lastCall-1].St
+		}
+		b.Steps[lastCall].St, want = prev, altWant
+		holdFindings = true
+		compare(lastCall)
+		holdFindings = false
+		b.Steps[lastCall].St, want = saveSt, saveWant
+		if len(held) == 0 {
+			otherCourse = true
+			st.Outcomes[b.Steps[lastCall].A+"/refused where the code as found answers "+b.Steps[lastCall].R]++
+		} else {
+			for _, f := range strict {
+				if len(st.Findings) < 12 {
+					st.Findings = append(st.Findings, f)
+				}
+			}
+		}
+		held = nil
+	}
 	// every call was received, with the outcome the specification gives it
 	ms := p.Chain.GetFrontierMomentumStore()
-	for _, c := range calls {
+	for ci, c := range calls {
 		rb, err := ms.GetBlockWhichReceives(c.block.Hash)
 		if err != nil || rb == nil {
 			find("call-never-received", fmt.Sprintf("the %s call of step at time %d was never received by the bridge", c.step.A, c.step.Now))
@@ -508,6 +559,9 @@ func bridgeReplayOne(fx *bridgeFixture, dir string, b bridgeBehaviour, st *bridg
 		}
 		ok := len(rb.Data) == 8 && rb.Data[7] == 1
 		wantOK := c.step.R != "refused"
+		if otherCourse && ci == len(calls)-1 {
+			wantOK = false
+		}
 		st.Outcomes[c.step.A+"/"+c.step.R]++
 		if ok != wantOK {
 			find(fmt.Sprintf("%s-specified-%s-executed-%v", c.step.A, c.step.R, ok), fmt.Sprintf("%s by %s%s at time %d: the contract's receive reports success=%v, the specification says %s",
